@@ -171,6 +171,19 @@ func init() {
 			return fmt.Sprintf("%s «0»", ec(err)), []uint64{cas}
 		}}
 	}
+	// an unconditional write that reports the CAS it was given (SetXattrs has no CAS check)
+	blind := func(bucket, key, xname string) SOp {
+		return SOp{Name: "Update " + bucket + "/" + key, Do: func(w *SWorld, st *TState) (string, []uint64) {
+			var c *rosmar.Collection
+			if bucket == "b1" {
+				c = w.C(st.T)
+			} else {
+				c = coll(w.Extra[0], NameA)
+			}
+			cas, err := c.SetXattrs(ctx, key, map[string][]byte{xname: []byte(`{"x":1}`)})
+			return fmt.Sprintf("%s «0»", ec(err)), []uint64{cas}
+		}}
+	}
 	openB2 := func(w *SWorld) {
 		b2, err := rosmar.OpenBucket(BucketURL(w.Cfg, "b2"), "b2", rosmar.CreateOrOpen)
 		must(err)
@@ -181,6 +194,10 @@ func init() {
 		RegisterScenario(&Scenario{Name: name, Prop: []string{"C04"}, Disk: disk, Handles: 2, Setup: openB2, Keys: []string{"k"},
 			Threads: [][]SOp{{write("b1", "k", "a1"), write("b1", "k", "a2")}, {write("b1", "k", "b1")}, {write("b2", "k", "c1"), write("b2", "j", "c2")}},
 			Check:   casOrder(name, true)})
+		name2 := "H-blind-writers/" + ifs(disk, "disk", "mem")
+		RegisterScenario(&Scenario{Name: name2, Prop: []string{"C04"}, Disk: disk, Handles: 2, Setup: openB2, Keys: []string{"k"},
+			Threads: [][]SOp{{blind("b1", "k", "_a"), blind("b1", "k", "_a")}, {blind("b1", "k", "_b")}, {blind("b2", "k", "_c"), write("b1", "k", "c2")}},
+			Check:   casOrder(name2, true)})
 	}
 }
 
